@@ -550,6 +550,7 @@ async fn relay<E: RelayExt>(w: &Workload) -> ExecReport {
     let store = sqlite_memory().await;
     // (position in `signed`, id B uses, log, author)
     let mut at_b: Vec<(usize, Hash, E::L, VerifyingKey)> = vec![];
+    let mut stored_ids: std::collections::BTreeSet<Hash> = std::collections::BTreeSet::new();
     for (pos, a) in signed.iter().enumerate() {
         let i = a.idx;
         let Some((hb, body)) = over_the_wire::<E::L>(&mut rep, i, format!("A->B op {i}"), a.bytes.clone(), a.body.clone()) else { continue };
@@ -573,7 +574,17 @@ async fn relay<E: RelayExt>(w: &Workload) -> ExecReport {
         let op: Operation<E> = Operation { hash: header.hash(), header, body: body.map(|b| Body::new(&b)) };
         let log = op.header.extensions.log_of(a.chain);
         match insert::<E>(&store, &op, &log).await {
-            Ok(true) => {}
+            Ok(true) => {
+                stored_ids.insert(op.hash);
+            }
+            // The workload can sign the same operation twice (unit extensions carry no log id, so
+            // two logs of one author may start with byte-identical headers): the second insert is
+            // then rightly reported as already present.
+            Ok(false) if stored_ids.contains(&op.hash) => {
+                ctx::probe("identical_operation_signed_twice");
+                rep.lines.push(format!("B: op {i} is byte-identical to an operation stored before (same id), insert reports it as present"));
+                continue;
+            }
             Ok(false) => rep.find(i, "store-rejects", "insert_operation reports the operation as already present".to_string(), format!("id {}", hshort(&op.hash))),
             Err(e) => {
                 rep.find(i, "store-error", "insert_operation".to_string(), e);
